@@ -48,6 +48,8 @@ fn c15_alphabet(cfg: &NodeCfg) -> Vec<Op> {
         Op::SetMaxSize(2 * cfg.seg_size),
         Op::SetMaxDefault,
         Op::Restart,
+        // traffic to another topic of the same stream: the limit is the topic's, not the stream's
+        Op::SendOther(5),
     ]
 }
 
@@ -134,7 +136,8 @@ pub fn plan(prop: &str, tier: &str) -> (PropMeta, Vec<Job>) {
             tcp = true;
             let mut cfgs = Vec::new();
             for delete_oldest in [false, true] {
-                for mult in [1u64, 2, 3] {
+                // the largest limit leaves room for "well below the limit" with a closed segment present
+                for mult in if delete_oldest { vec![1u64, 2, 3, 5] } else { vec![1u64, 2, 3] } {
                     for threshold in if quick { vec![2] } else { vec![1, 2, 1000] } {
                         for cache in if quick { vec![false] } else { vec![false, true] } {
                             cfgs.push(NodeCfg {
@@ -250,6 +253,7 @@ fn shape(hist: &[Op]) -> String {
         .iter()
         .map(|o| match o {
             Op::Send(_) | Op::SendIds(_) | Op::Send2(_) => "S",
+            Op::SendOther(_) => "X",
             Op::Flush | Op::BgSave => "F",
             Op::Restart | Op::RestartNoDrain => "R",
             Op::Purge => "P",
@@ -479,6 +483,15 @@ impl Oracle for C15 {
                     continue;
                 }
                 return Err(format!("partition {}: offsets {gone:?} disappeared across a clean restart", pi + 1));
+            }
+            // "almost full" is not quantified by the property; below half of its limit a topic is not almost
+            // full under any reading
+            if self.limit > 0 && size_before * 2 < self.limit {
+                return Err(format!(
+                    "partition {}: maintenance removed offsets {gone:?} for size reasons although the topic used only {size_before} of its {} bytes",
+                    pi + 1,
+                    self.limit
+                ));
             }
             if self.limit == 0 || !self.delete_oldest {
                 return Err(format!(
